@@ -59,7 +59,7 @@ def _get_tree(tid):
         with notrace():  # (generation uses `random`; it must not run under tracing)
             _EXTRA_TREES[tid] = gen.random_tree(int(tid[1:]))
         return _EXTRA_TREES[tid]
-    if tid.startswith("F:"):
+    if tid.startswith("F:") or tid.startswith("V:"):
         return None
     if tid.startswith("E_") and ":" not in tid:
         from .trees import edges
@@ -77,6 +77,9 @@ def tree_file(tid):
         return _FILES[tid]
     if tid.startswith("F:"):
         p = os.path.join(FIXROOT, tid[2:])
+    elif tid.startswith("V:"):
+        # multi-file programs kept under vk/trees/files/ (sources in sub-directories)
+        p = os.path.join(os.path.dirname(os.path.abspath(__file__)), "trees", "files", tid[2:])
     else:
         t = get_tree(tid)
         p = os.path.join(scratch(), "Kconfig." + "".join(c if c.isalnum() else "_" for c in tid))
@@ -103,6 +106,8 @@ def build(tid, parser_version=None, renames=False, env=None):
         R.KconfigReport._instance = None
         old = {}
         env = dict(env or {})
+        if tid.startswith("V:srcnest/"):
+            env.setdefault("srcnest_dir", os.path.dirname(tree_file(tid)))
         if tid.startswith("F:gen_kconfig_doc/"):
             env.setdefault("srctree", FIXROOT + "/gen_kconfig_doc")
             env.setdefault("IDF_TARGET", os.environ.get("IDF_TARGET", "chipa"))
